@@ -179,15 +179,18 @@ checks["C12"] = dict(
 
 checks["C14"] = dict(
     runs=dict(
-        quick=[H("HarnessClose", {}, shards=14, depth=4)],
-        thorough=[H("HarnessClose", {}, shards=14, depth=4), H("HarnessClose", {"seg": 64}, shards=28, depth=5, timeout="30m")]),
-    required_reach=["close-checked"],
-    bounds=dict(quick="0..3 batches of 1..2 entries (2 entries per segment, rotation pending or completed at Close - both explored), optional tail truncation, then Close: every method ErrClosed, second Close no-op, handles released, rotation goroutine exited, reopen shows the acknowledged log",
+        quick=[H("HarnessClose", {}, shards=14, depth=4),
+               H("HarnessCloseRace", {"P": 2}, pkg="harness/hsched", tags="verif", sched=True, shards=4, depth=3)],
+        thorough=[H("HarnessClose", {}, shards=14, depth=4), H("HarnessClose", {"seg": 64}, shards=28, depth=5, timeout="30m"),
+                  H("HarnessCloseRace", {"P": 3}, pkg="harness/hsched", tags="verif", sched=True, shards=14, depth=4),
+                  H("HarnessCloseRace", {"P": 3, "seg": 64}, pkg="harness/hsched", tags="verif", sched=True, shards=14, depth=4)]),
+    required_reach=["close-checked", "close-race-checked"],
+    bounds=dict(quick="sequential: 0..3 batches of 1..2 entries (2 entries per segment, rotation pending or completed at Close - both explored), optional tail truncation, then Close: every method ErrClosed, second Close no-op, handles released, rotation goroutine exited, reopen shows the acknowledged log; concurrent: Close vs one of FirstIndex/LastIndex/GetLog/StoreLog/DeleteRange/Set/Get on a 2-entry log, rotation pending or not, every schedule with <=2 preemptions at schedule points",
                 thorough="adds one entry per segment"),
     assumptions=COMMON_ASSUME,
-    outside=["calls racing with Close (schedules) and data races: the concurrent half of C14 is not decided by this check - see DESIGN.md"],
-    level_text="Bounded symbolic execution of the real WAL around Close with the rotation goroutine as a coroutine whose completion before/after Close is an explored choice",
-    level_note="sequential half of the property only; concurrent half stated as outside")
+    outside=["schedules with more than P preemptions, preemptions elsewhere than at the named schedule points / VFS calls, two calls racing with Close at once", "data races and weak-memory effects (the interleaving model is sequentially consistent)"],
+    level_text="Bounded symbolic execution of the real WAL around Close: sequentially (rotation pending or done) and with Close racing one call of every API method under every schedule with at most P preemptions at the named schedule points compiled in with -tags verif; counterexample schedules are enforced natively",
+    level_note="bounded preemptions at schedule points; sequentially consistent interleavings")
 
 checks["C20"] = dict(
     runs=dict(
@@ -329,6 +332,21 @@ checks["C07"] = dict(
     outside=["what the kernel and the disk do below the system calls", "failures of open/close/stat (not injectable per thread with strace, so not confirmable)", "bbolt-internal I/O"],
     level_text="Symbolic execution of the real fs, segment and wal packages (and metadb initialisation) over an OS-call model: the durability contract is a predicate over the trace of OS calls, checked on every path = every code path x every injected failure within the bound",
     level_note="kernel contract assumed; failures bounded; bbolt internals trusted")
+
+checks["C06"] = dict(
+    runs=dict(
+        quick=[H("HarnessReadersWriter", {"P": 2}, pkg="harness/hsched", tags="verif", sched=True, shards=8, depth=3),
+               H("HarnessPoolRace", {"P": 2}, pkg="harness/hsched", tags="verif", sched=True)],
+        thorough=[H("HarnessReadersWriter", {"P": 3}, pkg="harness/hsched", tags="verif", sched=True, shards=28, depth=4, timeout="30m"),
+                  H("HarnessReadersWriter", {"P": 2, "seg": 64}, pkg="harness/hsched", tags="verif", sched=True, shards=14, depth=4),
+                  H("HarnessPoolRace", {"P": 3}, pkg="harness/hsched", tags="verif", sched=True, shards=4, depth=2)]),
+    required_reach=["readers-writer-checked", "pool-race-checked"],
+    bounds=dict(quick="one writer running one of three scripts (append with rotation then head truncation; append, tail truncation, re-append of different content at the same index; truncate everything then restart at another index) against one reader issuing FirstIndex / LastIndex / GetLog(i in 1..5), every schedule with <=2 preemptions taken at the named schedule points of raft-wal (-tags verif) or at a VFS call; two readers sharing the pooled buffers on a >64 KiB entry",
+                thorough="3 preemptions; one entry per segment"),
+    assumptions=COMMON_ASSUME + ["interleavings are sequentially consistent and switch only at schedule points (wal.VerifSched hooks, VFS calls, blocking operations); the linearizability oracle: the reader's result must match some state between the number of writer operations completed at its start and started at its end"],
+    outside=["the clause 'no execution contains a data race': plain-memory races and weak-memory effects are not modelled by interleaving at schedule points and cannot be decided by this family (DESIGN.md section 8)", "more than P preemptions, more than one reader in the linearizability harness, preemption inside segment.Writer between its atomics"],
+    level_text="Bounded symbolic execution of the real WAL with goroutines as coroutines and a bounded number of preemptions explored as forks; a linearizability oracle on every reader result; counterexample schedules are replayed natively through the schedule points compiled in with -tags verif",
+    level_note="data-race freedom not covered; bounded preemptions")
 
 json.dump(checks, open(os.path.join(ROOT, "checks.json"), "w"), indent=1)
 print("checks:", sorted(checks))
